@@ -7,11 +7,4 @@ HOOKS = {
 }
 NOTES = "See DESIGN.md. Every check: regenerates coq/Gen/Facts.v from /repo, rebuilds the property's Coq targets, re-runs Print Assumptions, rebuilds the harness against /repo's working tree, runs it, evaluates the Impl model on the same cases inside Coq."
 ALL = ["C%02d" % i for i in range(1, 21)]
-CHECKS = {
-    "C16": {
-        "text": "Theorems (Coq, no axioms) that the modelled parser + snapshot resolution selects exactly the RFC 3501 denotation of every message set for every view size, or answers BAD; the model is tied to the code by differential runs over the wire (FETCH/STORE/COPY/MOVE/SEARCH/UID EXPUNGE).",
-        "note": "Trusted: Coq kernel, hand-written model coq/Model/SeqSet.v, the Go harness and its canonicalisation. Hypotheses: view size < 2^32, UIDs ascending.",
-        "technique": "Coq proof of refinement (impl model = RFC denotation) + wire correspondence",
-    },
-}
-NOT_APPLICABLE = [{"property_id": p, "reason": "check under construction in this round; not claimed yet"} for p in ALL if p not in CHECKS]
+NA_REASONS = {}
